@@ -420,7 +420,7 @@ def _exists(node: str, isdelete: bool) -> bool:
     return True
 
 
-@R.rule("C31-R2", floor=40, template="T-TABLE",
+@R.rule("C31-R2", floor=57, template="T-TABLE",
         desc="per-object form: for every (post_update, isdelete, childisdelete) branch of per_state_dependencies "
              "the edges contain the oracle's precedence pairs specialised to the objects present in that branch "
              "(pairs with a never-cyclic post/pre-update endpoint may be discharged by the direct aggregate edge, "
@@ -511,7 +511,7 @@ def _sub_is(node, name: str, idx: int) -> bool:
             and isinstance(node.slice, ast.Constant) and node.slice.value == idx)
 
 
-@R.rule("C31-R3", floor=6, template="T-FLOW",
+@R.rule("C31-R3", floor=7, template="T-FLOW",
         desc="UOWTransaction.execute runs exactly the actions returned by _generate_actions in the order given by "
              "topological.sort / sort_as_subsets over self.dependencies; _generate_actions detects cycles over the "
              "same edge set, converts exactly the cycle members to per-object actions and rewrites edges with one "
